@@ -240,7 +240,12 @@ func (d *Decoder) readTypedList(tag byte) (interface{}, error) {
 		}
 
 		if item == nil {
-			break
+			// a null element keeps the zero value of the element type
+			if isVariableArr {
+				aryValue = reflect.Append(aryValue, reflect.Zero(aryType.Elem()))
+				holder.change(aryValue)
+			}
+			continue
 		}
 
 		v := EnsureRawValue(item)
